@@ -12,7 +12,7 @@ Theorem momo_openn1_generation_bytes (h : Z -> Z) maxCount reverse wfThr probing
   hrun h maxCount wfThr start_fn (next_fn probing) (newTable BS bs0 true log) os = Some t ->
   exists bt, brun h maxCount reverse start_fn (next_fn probing) log (fun _ => Gen_OpenN1_ops.pvSetEmpty maxCount d0) os = Ok (Some bt) /\
              trep h maxCount reverse max_log t bt /\
-             gtfind h maxCount reverse start_fn (next_fn probing) t bt k = Some (tfind BS bs0 (decode_fn (kind maxCount)) h true start_fn (next_fn probing) t k).
+             gtfind h maxCount reverse start_fn (next_fn probing) t bt k = Ok (enc_pos (tfind BS bs0 (decode_fn (kind maxCount)) h true start_fn (next_fn probing) t k)).
 Proof.
   intros Hh Hmc Hl H.
   apply (generation_bytes_all_histories h Hh maxCount reverse Hmc wfThr start_fn (next_fn probing) max_log); auto.
